@@ -34,6 +34,7 @@ type replayCase struct {
 	Libs map[string]string `json:"libs,omitempty"`
 	Type string            `json:"type,omitempty"`
 	Snip string            `json:"snippet,omitempty"`
+	Scalar *scalarReplay   `json:"scalar,omitempty"` // kind scalar: field, payload, depth (scalarprobe.go)
 }
 
 func caseOf(p *Prog) replayCase {
@@ -160,6 +161,10 @@ func (rn *runner) judge(progs []*Prog, br *BatchResult, shrinkPass bool) {
 				}
 			}
 		}
+		if strings.Contains(p.Src, "// sc-expect: ") && io.Exit != -1 {
+			// the literal form must denote the intended payload in the interpreted run (non-vacuity of the scalar stream)
+			scEffect(c, p, io)
+		}
 		if rn.explore != nil && os.Getenv("C16_ONLY") != "" {
 			fmt.Fprintf(rn.explore, "OBS %s %v same=%v\n  compiled: %s\n  interp:   %s\n", p.Name, p.Tags, co.Same(io), co, io)
 		}
@@ -190,6 +195,7 @@ func (rn *runner) judge(progs []*Prog, br *BatchResult, shrinkPass bool) {
 			c.Violation("diff:"+strings.Join(uniqSorted(p.Tags), "+"), diffWhat(p, co, io), caseOf(p))
 			continue
 		}
+		p.FailParts = scDiffParts(p, co, io)
 		rn.failing = append(rn.failing, p)
 	}
 }
@@ -332,6 +338,16 @@ func (rn *runner) shrink() {
 			continue
 		}
 		for i, part := range p.Parts {
+			if len(p.FailParts) > 0 {
+				// a scalar program: only the parts whose output segments differed (the first few)
+				keep := false
+				for k, fp := range p.FailParts {
+					keep = keep || (fp == i && k < 4)
+				}
+				if !keep {
+					continue
+				}
+			}
 			q := &Prog{Name: fmt.Sprintf("%ss%d", p.Name, i), Kind: "shrink", Tags: []string{p.Tags[i]}, Libs: map[string]string{}}
 			q.Src = assemble([]string{part})
 			for k, v := range p.PartLibs[i] {
@@ -387,6 +403,8 @@ func Run(c *vh.Ctx) {
 		}
 	}
 	rn := &runner{c: c, timeout: 6 * time.Second}
+	scFull = c.Thorough()
+	defer scIneffectiveNote(c)
 	if f := os.Getenv("C16_EXPLORE"); f != "" {
 		rn.explore, _ = os.Create(f)
 		defer rn.explore.Close()
@@ -400,7 +418,7 @@ func Run(c *vh.Ctx) {
 			c.Note("bad replay: %v", err)
 			return
 		}
-		if rc.Kind == "struct" || rc.Kind == "order" {
+		if rc.Kind == "struct" || rc.Kind == "order" || rc.Kind == "scalar" {
 			structReplay(c, m, rc)
 			return
 		}
@@ -412,7 +430,7 @@ func Run(c *vh.Ctx) {
 		return
 	}
 
-	c.Res.Rule = "differential: every program is translated by the real compile command, linked into one runner binary per batch and run compiled (Register+RunCompiledFile) and interpreted (LoadAndRun) in separate child processes; compared: stdout, kind of the uncaught error (first stderr line without file/position), exit status. Programs: every feature of the alphabet alone (exhaustive over the alphabet), seeded mixes of 2..5 features, lexh.GenSafe programs, library+entry class programs, order features (every ordered collection of the AST — class properties, parameters, arguments, array items, statements, match arms, catch clauses, switch cases, interface and use lists, operands — declared in a seeded scrambled order and printed through every observer: foreach, json_encode, (array) cast, var_dump, string conversion, serialize, first key, first-match-wins dispatch, tracer calls), deterministic echo-only corpus files. non-trivial = the interpreted run prints something or ends in an uncaught error; distinct = distinct source text. structural: per AST node type found in parsed snippets, Emit's path and the field list of a reflective literal, model vs real Generator; order probe: exchanging two distinguishable members of an ordered field that reaches the text must change the text the real Generator emits"
+	c.Res.Rule = "differential: every program is translated by the real compile command, linked into one runner binary per batch and run compiled (Register+RunCompiledFile) and interpreted (LoadAndRun) in separate child processes; compared: stdout, kind of the uncaught error (first stderr line without file/position), exit status. Programs: every feature of the alphabet alone (exhaustive over the alphabet), seeded mixes of 2..5 features, lexh.GenSafe programs, library+entry class programs, order features (every ordered collection of the AST — class properties, parameters, arguments, array items, statements, match arms, catch clauses, switch cases, interface and use lists, operands — declared in a seeded scrambled order and printed through every observer: foreach, json_encode, (array) cast, var_dump, string conversion, serialize, first key, first-match-wins dispatch, tracer calls), scalar-payload features (every payload class — strings with 0/1/2/3/many newlines, tabs after newlines, backtick, backslash, quotes, `$`, printf verbs, NUL/control bytes, CR, invalid UTF-8, multi-byte and non-printable runes, syntax look-alikes, empty, very long; ints at the 7..63-bit boundaries in every base; floats incl. -0.0, 5e-324, 1e308, 17 digits, INF/NAN by expression; bools, null; unusual identifiers and keys — in every literal form: escaped / real newlines in double and single quotes, heredoc, nowdoc, indented marker, interpolation parts, inline HTML — at every nesting context of the generator incl. library-class members; a difference is shrunk to the single payload+context), deterministic echo-only corpus files. non-trivial = the interpreted run prints something or ends in an uncaught error; distinct = distinct source text. structural: per AST node type found in parsed snippets, Emit's path and the field list of a reflective literal, model vs real Generator; order probe: exchanging two distinguishable members of an ordered field that reaches the text must change the text the real Generator emits; scalar probe: every scalar field of every node type is set to every payload of its class and emitted by the real Generator at three indentation depths — the generated text, parsed by go/parser and evaluated by go/constant, must contain a literal equal to the payload (model tie: Lean unquote = Go's reading of every string literal, Lean quote = the generator's text)"
 
 	// ---- structural correspondence (model vs real Generator)
 	structStream(c, m)
@@ -446,6 +464,7 @@ func Run(c *vh.Ctx) {
 			}
 		}
 		rn.batch(progs, false)
+		rn.shrink()
 		return
 	}
 	nRounds := c.N(1, 5)
@@ -497,7 +516,7 @@ func Run(c *vh.Ctx) {
 	}
 	rn.shrink()
 	c.Res.Exhaustive = true
-	c.Res.ExhaustiveWhat = fmt.Sprintf("every single-feature program of the %d-feature alphabet (control flow, expressions, functions, closures, exceptions, library classes, entry-file declarations), each with seeded parameters", len(features))
+	c.Res.ExhaustiveWhat = fmt.Sprintf("every single-feature program of the %d-feature alphabet (control flow, expressions, functions, closures, exceptions, library classes, entry-file declarations, ordered collections, scalar payloads), each with seeded parameters; the scalar probe over every (scalar field, payload) pair", len(features))
 	if m != nil {
 		c.Res.ModelLines = m.Lines
 	}
